@@ -263,13 +263,19 @@ def make_cfg(rs, tier):
     cfg.update(capmode="huge", forced_flush_possible=False, oracles=["backend"], kinds=[G.pick(rs, ["dict", "list"]) for _ in range(4)],
                shape=rs.choice(["obj", "backend", "nested", "backend"]), forced=rs.random() < 0.35,
                roles=[rs.choice(["modified", "modified", "readonly", "untouched"]) for _ in range(4)],
-               outside=[rs.choice(["before", "after", "after", "never"]) for _ in range(4)], bcap=rs.choice([None, None, 10**6]))
+               outside=[rs.choice(["before", "after", "after", "never"]) for _ in range(4)], bcap=rs.choice([None, None, 10**6]),
+               prior_cap=rs.choice([None, None, 0, 0, 1, 7]))
     return cfg
 
 
 def drive(w, rg, emit):
     cfg = w.cfg
     n = cfg["nres"]
+    if cfg.get("prior_cap") is not None and cfg["bcap"] and cfg["shape"] in ("backend", "nested"):
+        # an unusual but legal capacity is in force before the contexts (0 = flush on every modification); the contexts
+        # themselves run with buffer_backend(bcap) and must give it back afterwards ("its settings are as before")
+        for k_ in sorted({cfg["kinds"][i] for i in range(n)}):
+            emit({"t": "setcap_keep", "family": cfg["family"], "kind": k_, "n": cfg["prior_cap"]})
     w.cap0 = {o.cls: o.cls.get_buffer_capacity() for o in w.objs}
     objs = {o.rid: o for o in w.objs}
     # unbuffered prefix
@@ -362,7 +368,101 @@ def drive(w, rg, emit):
     # exits happen in finish() one at a time
 
 
+# ---- threaded part: the flush of a per-object context next to a writer of the same class on another thread ----------
+# "Someone else" may also be another thread of this process writing the file through an unbuffered object of the same
+# class.  T0 runs `with A.buffered: <op>` (load into the buffer, modify, flush at the exit), T1 runs one unbuffered
+# mutator through B (same file).  Whatever the interleaving, T1's write is never silently lost: either it is in the final
+# file together with T0's, or T0's exit raised MetadataError and the file holds T1's content.
+
+THREAD_EVERY = 8       # every 8th run index is a threaded run
+
+
+def thread_build(seed, i, tier):
+    from . import _thr
+    from ..core.values import Fresh
+    ns = lib.load()
+    rs = stream(seed, ID, i, "tcfg")
+    fresh = Fresh()
+    fam = G.pick(rs, ns.buffered_families)
+    kind = G.pick(rs, ["dict", "list"])
+    cfg = {"prop": ID, "family": fam, "kind": kind, "wc": rs.random() < 0.5, "threading": True, "oracles": [], "uuid_seed": rs.getrandbits(32), "opcode": False}
+    init = _thr.init_content(kind, fresh)
+    pre = [{"t": "new_res", "family": fam, "kind": kind, "init": init}, {"t": "new_obj", "rid": 0, "wc": cfg["wc"]}, {"t": "new_obj", "rid": 0, "wc": cfg["wc"]}]
+    v0, v1 = fresh.int(), fresh.int()
+    if kind == "dict":
+        op0 = ["setitem", ["w0", v0]] if rs.random() < 0.85 else ["len", []]
+        op1 = {"h": 1, "name": "setitem", "args": ["w1", v1]}
+    else:
+        op0 = ["append", [v0]] if rs.random() < 0.85 else ["len", []]
+        op1 = {"h": 1, "name": "append", "args": [v1]}
+    progs = [[{"h": 0, "name": "$buffered_block", "args": op0}], [op1]]
+    r = rs.random()
+    if r < 0.3:
+        strat = {"kind": "random", "p": rs.choice([0.02, 0.1, 0.3])}
+    elif r < 0.45:
+        strat = {"kind": "pct", "d": rs.choice([1, 2, 3]), "est": rs.choice([400, 800, 1500])}
+    else:
+        first = rs.choice(["T0", "T0", "T1"])
+        strat = {"kind": "single", "first": first, "k": rs.randrange(0, rs.choice([200, 800, 1600])), "order": [first, "T1" if first == "T0" else "T0"]}
+    return {"part": "T", "cfg": cfg, "pre": pre, "progs": progs, "strat": strat, "sched_seed": f"{seed}/{ID}/t{i}", "v0": v0, "v1": v1, "kind": kind}
+
+
+def thread_run(payload):
+    from . import _thr, c10
+    c10._special_ops()
+    out = _thr.execute(payload["cfg"], payload["progs"], payload["strat"], payload["sched_seed"], payload["pre"], None)
+    return out, thread_judge(payload, out)
+
+
+def thread_judge(payload, out):
+    from . import _thr
+    if out["abort"] == "deadlock":
+        return {"kind": "deadlock", "msg": f"deadlock: {out['deadlock']} | {_thr.describe_history(out)}"}
+    if out["abort"] or out["errors"]:
+        return {"kind": "harness_thread_error", "msg": f"{out['abort']} {out['errors']}"}
+    recs = {r["t"]: r for r in out["history"]}
+    t0, t1 = recs.get(0), recs.get(1)
+    if t0 is None or t1 is None:
+        return {"kind": "harness_thread_error", "msg": "a thread did not record its operation"}
+    final = out["final"][0]
+    hist = _thr.describe_history(out) + f" | final={jsonable(final)!r}"
+    if t1.get("exc"):
+        return {"kind": "unexpected_error", "msg": f"the unbuffered writer raised {t1['exc']}: {hist}"}
+    v0, v1, kind = payload["v0"], payload["v1"], payload["kind"]
+
+    def has(v, key):
+        if final is None:
+            return False
+        return (final.get(key) == v) if kind == "dict" else (v in final)
+    t0_wrote = payload["progs"][0][0]["args"][0] in ("setitem", "append")
+    if t0.get("exc") and t0["exc"] != "MetadataError":
+        return {"kind": "unexpected_error", "msg": f"the buffered block raised {t0['exc']} (only MetadataError reports a conflict): {hist}"}
+    if not has(v1, "w1"):
+        return {"kind": "silent_overwrite", "msg": "the flush at the exit of A.buffered overwrote what another thread wrote to the same file through an unbuffered "
+                f"object of the same class, and {'raised ' + t0['exc'] + ' but the other writer\'s content is not intact' if t0.get('exc') else 'raised nothing'}: {hist}"}
+    if not t0.get("exc") and t0_wrote and not has(v0, "w0"):
+        return {"kind": "lost_buffered_write", "msg": f"the buffered block returned normally but its write is not in the file: {hist}"}
+    return None
+
+
 def run_one(seed, i, tier):
+    if i % THREAD_EVERY == THREAD_EVERY - 1:
+        from ..core.runner import run_isolated
+        payload = thread_build(seed, i, tier)
+        out, v = run_isolated(thread_run, (payload,), timeout=60)
+        res = {"viol": None, "probes": {"threaded_flush_runs": 1, "threaded_flush_conflicts": int(any(r.get("exc") == "MetadataError" for r in out["history"])),
+                                        "preempt_in_op": out["preempt_in_op"]},
+               "stats": {}, "steps": out["steps"], "faults": {"preemption": out["switches"]}}
+        if out["preempt_in_op"]:
+            res["sig"] = digest([payload["cfg"]["family"], payload["kind"], payload["progs"][0][0]["args"][0], out.get("switch_phases", [])[:6]])
+        if i % 997 == THREAD_EVERY - 1 or v:
+            res["sample"] = {"run_index": i, "programs": jsonable(payload["progs"]), "strategy": payload["strat"]}
+        if v:
+            rp = dict(payload)
+            rp["strat"] = {"kind": "forced", "choices": out["choices"]}
+            v.update(index=i, replay=rp)
+            res["viol"] = v
+        return res
     rs = stream(seed, ID, i, "cfg")
     cfg = make_cfg(rs, tier)
     rg = stream(seed, ID, i, "gen")
@@ -400,6 +500,10 @@ def run_one(seed, i, tier):
 
 
 def replay(payload):
+    if payload.get("part") == "T":
+        from ..core.runner import run_isolated
+        out, v = run_isolated(thread_run, (payload,), timeout=60)
+        return v
     w = W(payload["cfg"])
     try:
         try:
@@ -419,6 +523,8 @@ def replay(payload):
 
 
 def minimise(payload, viol):
+    if payload.get("part") == "T":
+        return payload       # two operations and a forced schedule: already minimal in operations
     from ..core.runner import ddmin
     kind = viol["kind"]
     fixed = [s for s in payload["steps"] if s["t"] in ("new_res", "new_obj")]
